@@ -20,6 +20,7 @@
 From Coq Require Import NArith ZArith List Bool.
 From SFV Require Import Base.Bytes Msgpack.Wire Read.Lazy Read.ReadRun Read.ReadSpec Read.ReadSafe
   Read.SeqSpec Read.SeqProofs Read.SeqNat Read.SeqCorollaries Read.SeqWidth.
+From SFV Require Import Read.GenRun Read.GenRunEq.
 Import ListNotations.
 Open Scope N_scope.
 
@@ -172,3 +173,30 @@ Example C08_wellformed_instance :
   wf w = true /\ no_nan w = true /\ lenN (enc w) < 2 ^ 32 /\ refs_ok ex_ops = true /\
   seq_run 32 true (enc w) ex_ops = spec_run w ex_ops.
 Proof. cbv zeta. repeat split; vm_compute; reflexivity. Qed.
+
+(** * The same about the TRANSLATED reader (Read/GenRun.v: every node operation is the Rust function regenerated by T8)
+
+    For every input of bytes that does not fill the address space -- truncated, corrupted, random -- and every call sequence,
+    the translated code returns exactly the answers of the stateless sequential decoder [seq_run]: no wrong value, no panic,
+    no stray string, the same answer when a call is repeated, on the code as translated and not only on its model. *)
+Theorem C08_code_value : forall W trap bs ops,
+  Forall (fun b => b < 256) bs -> lenN bs + 9 < 2 ^ W -> 32 <= W ->
+  gouts (g_run W trap bs ops) = seq_run W trap bs ops.
+Proof.
+  intros W trap bs ops Hb HW H32.
+  destruct (gen_run_eq W trap bs ops Hb HW H32) as [E _]. rewrite E.
+  apply SeqProofs.C08_value; [|exact Hb].
+  apply N.le_lt_trans with (lenN bs + 9); [apply N.le_add_r|exact HW].
+Qed.
+Print Assumptions C08_code_value.
+
+Theorem C08_code_no_panic : forall W trap bs ops,
+  Forall (fun b => b < 256) bs -> lenN bs + 9 < 2 ^ W -> 32 <= W ->
+  forallb no_bad (gouts (g_run W trap bs ops)) = true.
+Proof.
+  intros W trap bs ops Hb HW H32.
+  destruct (gen_run_eq W trap bs ops Hb HW H32) as [E _]. rewrite E.
+  apply ReadRobust.C08_nopanic; [|exact Hb].
+  apply N.le_lt_trans with (lenN bs + 9); [apply N.le_add_r|exact HW].
+Qed.
+Print Assumptions C08_code_no_panic.
